@@ -238,7 +238,12 @@ static SURVEY_CASES: std::sync::Mutex<std::collections::BTreeMap<String, ProgCas
 /// Reduce a failing case on the AST, keeping the failure's signature.
 pub fn reduce_case(ctx: &Ctx, ws: &mut Workers, c: &ProgCase, f: &Failure, cfgs: &[Config]) -> (ProgCase, Failure) {
     let mut last = f.clone();
+    // the reduction has a wall-clock budget: past it every further candidate is rejected
+    let reduce_deadline = std::time::Instant::now() + std::time::Duration::from_secs(if ctx.quick() { 150 } else { 900 });
     let reduced = svmodel::shrink::reduce(&c.program, 1500, &mut |p| {
+        if std::time::Instant::now() > reduce_deadline {
+            return false;
+        }
         let cand = ProgCase { program: p.clone(), text: render_program(p), features: vec![], excluded: vec![] };
         match check_case(ctx, ws, &cand, false, cfgs) {
             Err(g) if g.sig == f.sig => {
@@ -305,6 +310,7 @@ pub fn run(ctx: &Ctx, replay: Option<&str>) -> i32 {
         total,
         |ws, c, counting| match check_case(ctx, ws, c, counting, &cfgs) {
             Err(f) => {
+                let f = f.with_features(&c.features);
                 if let Some(k) = ctx.match_known(&f) {
                     if counting {
                         ctx.note_known_hit(&k.id);
